@@ -5,12 +5,8 @@
    overflow); `Field O` = they form a field. *)
 
 From Coq Require Import List Ring Field ZArith QArith Qcanon.
-From CG Require Import Scalar Model.Vector Proofs.C03_Vector Exec.ExecQ.
+From CG Require Import Scalar Model.Vector Proofs.Alg Proofs.C03_Vector Exec.ExecQ.
 Import ListNotations.
-
-Definition CRing {F} (O : Ops F) := ring_theory (zero O) (one O) (add O) (mul O) (sub O) (opp O) eq.
-Definition Field {F} (O : Ops F) :=
-  field_theory (zero O) (one O) (add O) (mul O) (sub O) (opp O) (div O) (inv O) eq.
 
 (* 1. +, -, neg, *s, /s, %s act component by component (field order x,y,z,w), all dimensions *)
 Theorem C03_componentwise : forall F (O : Ops F),
